@@ -3,6 +3,7 @@ import json, os, re, itertools
 import fw
 
 GEN = os.path.join(fw.COQ, 'Gen', 'GenLayouts.v')
+GENC = os.path.join(fw.COQ, 'Gen', 'GenComp.v')
 PROTO = os.path.join(fw.COQ, 'Model', 'C02Protocols.v')
 ERR = {'IndexError': 1, 'ValueError': 2, 'AttributeError': 3, 'NameError': 4, 'TypeError': 5}
 LETTERS = 'abcdefghijklmnopqrstuvwxyzABCDEFGHIJKLMNOPQRSTUVWXYZ'
@@ -39,6 +40,42 @@ def cplayout(t):
         clist(cz(x) for x in t['insert']), cz(t['min']), cz(t['max']))
 
 
+def cstr(x):
+    return clist(str(ord(ch)) for ch in x)
+
+
+def c_of(d):
+    a = d['args']
+    return '(mkC %s %s %s %s %s %s %s %s %s)' % (
+        cz(a['umiRead']), cz(a['umiStart']), cz(a['umiLength']), cz(a['barcodeRead']), cz(a['barcodeStart']),
+        cz(a['barcodeLength']), coz(a['random_primer_read']),
+        'None' if d['rp_slice'] is None else '(Some %s)' % cslice(d['rp_slice']),
+        clist(cslice(s) for s in d['capture']))
+
+
+def s_of(d):
+    return '(mkS %s %s %s %s %s)' % (
+        clist(clist(cslice(x) for x in per) for per in d['bc_slices']),
+        clist(clist(cslice(x) for x in per) for per in d['umi_slices']),
+        clist(cslice(x) for x in d['cap_slices']), coz(d['rp_read']),
+        'None' if d['rp_slice'] is None else '(Some %s)' % cslice(d['rp_slice']))
+
+
+def w_of(d):
+    w = d.get('wrapper') or {'exact': None, 'lig': None, 'need2': False}
+    return '(mkW %s %s %s)' % (coz(w['exact']),
+                               'None' if w['lig'] is None else '(Some (%s, %s))' % (cz(w['lig'][0]), cz(w['lig'][1])),
+                               'true' if w['need2'] else 'false')
+
+
+def arm_of(d):
+    if d['kind'] == 1:
+        return '(ArmC %s %s)' % (c_of(d), w_of(d))
+    if d['kind'] == 2:
+        return '(ArmS %s %s)' % (s_of(d), w_of(d))
+    raise ValueError('arm %s of kind %s' % (d['name'], d['kind']))
+
+
 def gen_entry(d):
     name = d['name']
     if not re.fullmatch(r'[A-Za-z0-9_ \-]*', name):
@@ -49,31 +86,55 @@ def gen_entry(d):
             cz(a['umiRead']), cz(a['umiStart']), cz(a['umiLength']), cz(a['barcodeRead']), cz(a['barcodeStart']),
             cz(a['barcodeLength']), coz(a['random_primer_read']), coz(a['random_primer_length']),
             'true' if a['random_primer_end'] else 'false')
-        c = '(mkC %s %s %s %s %s %s %s %s %s)' % (
-            cz(a['umiRead']), cz(a['umiStart']), cz(a['umiLength']), cz(a['barcodeRead']), cz(a['barcodeStart']),
-            cz(a['barcodeLength']), coz(a['random_primer_read']),
-            'None' if d['rp_slice'] is None else '(Some %s)' % cslice(d['rp_slice']),
-            clist(cslice(s) for s in d['capture']))
+        c = c_of(d)
     else:
         args = '(mkArgs 0 0 0 0 0 0 None None false)'
         c = '(mkC 0 0 0 0 0 0 None None [])'
-    if d['kind'] == 2:
-        s = '(mkS %s %s %s %s %s)' % (
-            clist(clist(cslice(x) for x in per) for per in d['bc_slices']),
-            clist(clist(cslice(x) for x in per) for per in d['umi_slices']),
-            clist(cslice(x) for x in d['cap_slices']), coz(d['rp_read']),
-            'None' if d['rp_slice'] is None else '(Some %s)' % cslice(d['rp_slice']))
-    else:
-        s = '(mkS [] [] [] None None)'
-    w = d.get('wrapper') or {'exact': None, 'lig': None, 'need2': False}
-    wr = '(mkW %s %s %s)' % (coz(w['exact']),
-                             'None' if w['lig'] is None else '(Some (%s, %s))' % (cz(w['lig'][0]), cz(w['lig'][1])),
-                             'true' if w['need2'] else 'false')
+    s = s_of(d) if d['kind'] == 2 else '(mkS [] [] [] None None)'
+    wr = w_of(d)
     tr = 'None' if d.get('traced') is None else '(Some %s)' % cplayout(d['traced'])
     rb = d.get('rb')
     rbs = '(mkRB %s)' % ' '.join(cz(rb[k]) for k in ('enzymeRead', 'enzymeStart', 'enzymeLength', 'ispcrRead', 'ispcrStart', 'ispcrLength')) \
         if rb else '(mkRB 0 0 0 0 0 0)'
     return '  (* %s *)\n  mkG "%s" %d %s\n      %s\n      %s\n      %s %s\n      %s' % (d['cls'], name, d['kind'], args, c, s, wr, rbs, tr)
+
+
+def comp_entry(d):
+    c = d.get('comp')
+    if d['kind'] == 0:
+        return '  ("%s", CBulk)' % d['name']
+    if c['type'] == 'tchic':
+        me = c['self']
+        body = 'CTchic (mkTchic %s %s %s gen_complement %s %s %s %s %s %s %s %s %s %s %s)' % (
+            c_of(me), w_of(me), cstr(me['name']), clist(cstr(x) for x in c['cuts']), cz(c['tx_umi_len']),
+            cstr(c['trim_chars']), cz(c['trim_drop']), cstr(c['polyT']),
+            clist('(%s, %s)' % (cstr(l), coz(w)) for l, w in c['t7']), cstr(c['cs2_suffix']),
+            cstr(c['dt'][0]), cstr(c['dt'][1]), cstr(c['dt'][2]), cstr(c['rr']))
+    elif c['type'] == 'chictv':
+        body = 'CChictv (mkChictv %s %s %s %s)' % (arm_of(c['arm']), cstr(c['oligo']), cz(c['umi_len']), cstr(c['mx']))
+    elif c['type'] == 'dual':
+        body = 'CDual (mkDual %s %s %s %s %s %s %s %s %s)' % (
+            arm_of(c['damid']), arm_of(c['tx']), cstr(c['damid']['name']), cstr(c['tx']['name']),
+            'true' if c['merge'] else 'false', 'None' if c['dt_both'] is None else '(Some %s)' % cstr(c['dt_both']),
+            cstr(c['dt_tx']), cstr(c['dt_damid']), cz(ord(c['prune'])))
+    else:
+        raise ValueError('composite type %r' % c['type'])
+    return '  (* %s *)\n  ("%s", %s)' % (d['cls'], d['name'], body)
+
+
+def write_gen_comp(layouts, tables):
+    ents = [comp_entry(d) for d in layouts if d['kind'] == 0 or (d['kind'] == 3 and d.get('comp'))]
+    body = ['(* GENERATED by tools/c02.py - composite / bulk strategies: arms dumped by reflection + trace, literals',
+            '   extracted from the method sources (AST) and the live objects (tools/impl_c02.py dump_comp). Do not edit. *)',
+            'From Coq Require Import ZArith List.', 'Import ListNotations.',
+            'From SCMO Require Import Lib.PySlice Model.C02Defs Model.C02Comp.', 'Open Scope Z_scope.', 'Open Scope sname_scope.', '',
+            'Definition gen_complement : list (Z * Z) := %s.' % clist('(%d, %d)' % (a, b) for a, b in tables['complement']), '',
+            'Definition gen_comps : list (sname * compdef) := [', ';\n'.join(ents), '].', '']
+    txt = '\n'.join(body)
+    old = open(GENC).read() if os.path.exists(GENC) else None
+    if old != txt:
+        with open(GENC, 'w') as f:
+            f.write(txt)
 
 
 def write_gen(layouts):
@@ -226,15 +287,133 @@ COMPOSITES = {
                 {'proto': 'CS2C8U6', 'mx': 'CS2C8U6', 'alias': 'celseq2', 'trimT': True}],
     'DamID2andT_3u4b3u4b': [dict(SCA8, mx='DamID2_3u4b3u6b', alias='DamID2_scattered_8bp'),
                             dict(SCA8, mx='DamID2_3u4b3u6b', alias='CS2_scattered_8bp', trimT=True)],
-    'DamID2andT_3u4b3u6b': [dict(SCA10, mx='DamID2_3u4b3u6b', alias='DamID2_scattered_10bp'),
+    # both arms accept: the transcriptome records are returned, updated with the DamID arm's tags
+    'DamID2andT_3u4b3u6b': [dict(SCA10, mx='DamID2_3u4b3u6b', alias='DamID2_scattered_10bp',
+                                 seq_from=dict(SCA8, alias='CS2_scattered_8bp', trimT=True)),
+                            dict(SCA10, mx='DamID2_3u4b3u6b', alias='DamID2_scattered_10bp'),
                             dict(SCA8, mx='DamID2_3u4b3u6b', alias='CS2_scattered_8bp', trimT=True)],
 }
+
+
+# ---- full python transcription of the composite strategies from the PINNED literals (used by search and
+# as a second oracle in K); returns ('accept', [records]) / ('reject',) / None when it cannot tell
+PIN = {'cuts': ['A' * 10, 'G' * 10], 'tx_umi': 6, 'trim_chars': 'GA', 'drop': 3, 'polyT': 'T' * 23,
+       't7': [('AGTCCGACGAT', 30), ('GTTCTACAGT', 30), ('TAATACGACTCACTATAGGG', None)], 'suffix': 'TTTTT',
+       'oligo': 'AGACTCTTT', 'tv_umi': 6, 'prune': 'T'}
+COMPL = str.maketrans('ATCGNatcgn', 'TAGCNtagcn')
+
+
+def arm_expected(c, protocols, recs, lk):
+    if 'proto' in c:
+        c = dict(protocols[c['proto']], **c)
+    exp, _ = expected_py(c, c.get('kind') == 2, recs, lk, c['alias'])
+    if exp is None:
+        return None
+    return [{'seq': e['seq'], 'qual': e['qual'], 'tags': dict(e['tags'], MX=c['mx'])} for e in exp]
+
+
+def prune_t(rec):
+    s = rec['seq']
+    a = len(s) - len(s.lstrip(PIN['prune']))
+    a = min(a, max(0, len(s) - 1))                  # a read made of T only keeps its last base
+    return dict(rec, seq=s[a:], qual=rec['qual'][a:])
+
+
+def expected_comp(name, protocols, recs, lk, cs2inv):
+    if len(recs) != 2:
+        return ('reject',)
+    if name in ('DamAndT', 'DamID2andT_3u4b3u4b', 'DamID2andT_3u4b3u6b'):
+        cands = [c for c in COMPOSITES[name] if not c.get('seq_from')]
+        dam, tx = arm_expected(cands[0], protocols, recs, lk), arm_expected(cands[1], protocols, recs, lk)
+        if tx is not None:
+            tx = [prune_t(tx[0])] + tx[1:]
+        def dt(rs, v):
+            return [dict(r, tags=dict(r['tags'], dt=v)) for r in rs]
+        if tx is not None and dam is not None:
+            if name == 'DamID2andT_3u4b3u6b':
+                return ('accept', [dict(t, tags=dict(t['tags'], **d['tags'])) for t, d in zip(tx, dam)])
+            return ('accept', dt(dam, 'Ambiguous'))
+        if tx is not None:
+            return ('accept', dt(tx, 'RNA'))
+        if dam is not None:
+            return ('accept', dt(dam, 'DamID'))
+        return ('reject',)
+    if name == 'CHICTV':
+        if PIN['oligo'] not in recs[0][0]:
+            return ('reject',)
+        e = arm_expected(COMPOSITES[name][0], protocols, recs, lk)
+        if e is None:
+            return ('reject',)
+        pos = e[0]['seq'].find(PIN['oligo'])
+        if pos < 0:
+            return ('reject',)
+        umi = e[0]['seq'][max(0, pos - PIN['tv_umi']):pos]
+        e[0] = dict(e[0], seq=e[0]['seq'][:pos], qual=e[0]['qual'][:pos])
+        return ('accept', [dict(r, tags=dict(r['tags'], tu=umi)) for r in e])
+    if name == 'TCHIC':
+        e = arm_expected(COMPOSITES[name][0], protocols, recs, lk)
+        if e is None:
+            return ('reject',)
+        bc0 = cs2inv.get(e[0]['tags']['bi'])
+        if bc0 is None:
+            return None
+        eb = bc0 + PIN['suffix']
+        s1, s2 = e[0]['seq'], e[1]['seq']
+        rc2 = s2.translate(COMPL)[::-1]
+        def fin(dt, **kw):
+            return ('accept', [dict(r, tags=dict(r['tags'], dt=dt, **kw)) for r in e])
+        if eb in s1 or eb in rc2:
+            src = s1 if eb in s1 else rc2
+            end = src.find(eb)
+            umi = src[max(0, end - PIN['tx_umi']):end]
+            s, q = s2, e[1]['qual']
+            for cut in PIN['cuts']:
+                i = s.find(cut)
+                if i != -1:
+                    s, q = s[:i], q[:i]
+            s = s.rstrip(PIN['trim_chars'])
+            s = s[:max(0, len(s) - PIN['drop'])]
+            e[1] = dict(e[1], seq=s, qual=q[:len(s)])
+            return fin('VASA', **({'rx': umi} if umi else {}))
+        if PIN['polyT'] in s1 or PIN['polyT'] in s2:
+            return ('reject',)
+        if any(lit in (s1[:w] if w is not None else s1) for lit, w in PIN['t7']):
+            return fin('VASA', RR='T7_found')
+        return fin('CHIC')
+    return None
+
+
+def check_comp_exact(name, protocols, recs, res, lk, cs2inv):
+    """an ACCEPTED composite result must be exactly what the pinned transcription prescribes"""
+    if res.get('st') != 'accept' or 'recs' not in res:
+        return None
+    exp = expected_comp(name, protocols, recs, lk, cs2inv)
+    if exp is None:
+        return None
+    if exp[0] != 'accept':
+        return 'accepted although the composite rule rejects this pair'
+    if len(exp[1]) != len(res['recs']):
+        return 'accepted output has %d records, expected %d' % (len(res['recs']), len(exp[1]))
+    for i, (o, e) in enumerate(zip(res['recs'], exp[1])):
+        for k in sorted(set(o['tags']) | set(e['tags'])):
+            if o['tags'].get(k) != e['tags'].get(k):
+                return 'record %d: tag %s = %r, declared rule gives %r' % (i, k, o['tags'].get(k), e['tags'].get(k))
+        if o['seq'] != e['seq'] or o['qual'] != e['qual']:
+            return ('record %d: emitted stretch differs from the declared trim (got %d bases / %d qualities, rule gives %d / %d)'
+                    % (i, len(o['seq']), len(o['qual']), len(e['seq']), len(e['qual'])))
+    return None
 
 
 def match_cand(c, recs, out, lk):
     exp, why = expected_py(c, c.get('kind') == 2, recs, lk, c['alias'])
     if exp is None:
         return why
+    if c.get('seq_from'):
+        sf = c['seq_from']
+        e2, why = expected_py(sf, sf.get('kind') == 2, recs, lk, sf['alias'])
+        if e2 is None:
+            return 'other arm: ' + why
+        c = dict(c, insert=sf['insert'], trimT=sf.get('trimT'))
     for i, (o, e) in enumerate(zip(out, exp)):
         if o['tags'].get('MX') != c['mx']:
             return 'MX=%r' % o['tags'].get('MX')
@@ -249,6 +428,9 @@ def match_cand(c, recs, out, lk):
             while a < len(s) and s[a] == 'T':
                 a += 1
                 starts.append(a)
+            # declared rule: the maximal poly-T prefix, but an insert of T only keeps its last base
+            a = min(a, max(ins, len(s) - 1)) if len(s) > ins else ins
+            starts = [a]
         ok = False
         cut = (c.get('cut') or [False, False])[i]
         for a in starts:
@@ -321,6 +503,36 @@ def canon_impl(res, name, kind=1):
     return [0, out]
 
 
+def canon_comp(res, kind):
+    """implementation result of a composite / bulk strategy -> the value run_C02 mode 6 prints"""
+    st = res.get('st')
+    if st == 'reject':
+        return [1]
+    if st == 'raise':
+        return [2, ERR.get(res.get('error'), 99)]
+    if st != 'accept':
+        return ['malformed', res.get('what', st)]
+    if kind == 0:
+        out = []
+        for f in (res['fastq'] if isinstance(res.get('fastq'), list) else ['?']):
+            parts = f.split('\n')
+            if len(parts) != 5 or parts[2] != '+' or parts[4] != '' or not parts[0].startswith('@'):
+                return ['malformed-fastq', f]
+            out.append([parts[1], parts[3]])
+        return [0, out]
+    if 'recs' not in res:
+        return ['malformed', 'no records']
+    out = []
+    for r in res['recs']:
+        t = r['tags']
+        extra = set(t) - set(OBSERVED) - {'dt', 'rx', 'RR', 'tu'}
+        if extra:
+            return ['unexpected-tags', sorted(extra)]
+        o = [r['seq'], r['qual'], t.get('bc'), t.get('BC'), t.get('bi')] + [opt(t.get(k)) for k in ('RX', 'RQ', 'rS', 'lh', 'lq')] + [[]]
+        out.append([o, t.get('MX')] + [opt(t.get(k)) for k in ('dt', 'rx', 'RR', 'tu')])
+    return [0, out]
+
+
 def pyslice(s, sl):
     return s[slice(sl[0], sl[1])]
 
@@ -338,10 +550,15 @@ class Prop(fw.PropBase):
         '-> coq/Gen/GenLayouts.v',
         'coq/Model/C02Protocols.v: hand-written pinned protocol table (from the classes\' description strings at this commit); '
         'where a description is silent (DamID insert start, ligation bases) the position was pinned from the constructor comments',
-        'composite strategies (TCHIC, CHICTV, DamAndT, DamID2andT_3u4b3u4b, DamID2andT_3u4b3u6b) and the bulk strategy ILLU have NO '
-        'Coq model: they are covered by K against a python transcription of the statement (tools/c02.py check_composite / '
-        'check_bulk) only - not proved; for the composites that transcription allows any declared clipping of the emitted stretch '
-        '(poly-T prefix of the transcriptome arm, oligo / homopolymer suffix) without checking the clip position',
+        'composite strategies (TCHIC, CHICTV, DamAndT, DamID2andT_3u4b3u4b, DamID2andT_3u4b3u6b) and ILLU: modelled in Coq '
+        '(coq/Model/C02Comp.v) over the single-protocol arm models; their literals (oligos, poly-A/G/T runs, the 3 of [:-3], UMI '
+        'lengths, dt / MX / RR strings, the [GA] character class, the complement table) are regenerated into coq/Gen/GenComp.v by '
+        'AST extraction from demultiplex / trim_r2 plus object attributes (tools/impl_c02.py dump_comp, fail closed on an unknown '
+        'shape); the dispatch structure of each composite is hand-transcribed and validated by K (Coq model vs the real classes); '
+        're.sub with $ is modelled as a plain suffix strip (a trailing newline inside a read is not modelled); the CEL-Seq2 '
+        'barcode-of-index table of TCHIC is a parameter answered from the shipped whitelist',
+        'DamID2_scattered_10bp ships without a whitelist file: K gives it 48 synthetic barcodes (transcriptome barcodes + 2 bases) so '
+        'that the both-arms branch of DamID2andT_3u4b3u6b is exercised',
     ]
     ASSUMPTIONS = [
         'an accepted input is a tuple of 1 or 2 reads (the base classes reject every other arity); theorems hold for all read '
@@ -357,9 +574,17 @@ class Prop(fw.PropBase):
         r = fw.run_impl('impl_c02.py', {'op': 'layouts'})
         if 'error' in r:
             raise RuntimeError('reflection over the registered strategies failed: ' + r['error'])
-        self.layouts, self.whitelists = r['layouts'], r['whitelists']
+        self.layouts, self.whitelists, self.tables = r['layouts'], r['whitelists'], r['tables']
         write_gen(self.layouts)
-        return [{'file': 'coq/Gen/GenLayouts.v', 'source': 'DemultiplexingStrategyLoader.demux_classes (reflection + trace) in ' + fw.REPO,
+        write_gen_comp(self.layouts, self.tables)
+        bad = ['%s: %s' % (d['name'], d['comp_error']) for d in self.layouts if d.get('comp_error')]
+        if bad:
+            raise RuntimeError('composite strategy source has a shape the translator does not know (no Coq definition '
+                               'generated, strategy covered by the python statement only): ' + '; '.join(bad))
+        return [{'file': 'coq/Gen/GenComp.v', 'source': 'composite strategies: arms by reflection + trace, literals by AST of demultiplex / trim_r2 '
+                 'and object attributes; utils.sequtils.complement_translate', 'composites': sum(1 for d in self.layouts if d['kind'] == 3),
+                 'sha256': hashlib.sha256(open(GENC, 'rb').read()).hexdigest()[:16]},
+                {'file': 'coq/Gen/GenLayouts.v', 'source': 'DemultiplexingStrategyLoader.demux_classes (reflection + trace) in ' + fw.REPO,
                  'strategies': len(self.layouts), 'kinds': {str(k): sum(1 for d in self.layouts if d['kind'] == k) for k in (0, 1, 2, 3, 4, 9)},
                  'sha256': hashlib.sha256(open(GEN, 'rb').read()).hexdigest()[:16]}]
 
@@ -368,7 +593,7 @@ class Prop(fw.PropBase):
             r = fw.run_impl('impl_c02.py', {'op': 'layouts'})
             if 'error' in r:
                 raise fw.Broken('translator', 'reflection over the registered strategies failed: ' + r['error'])
-            self.layouts, self.whitelists = r['layouts'], r['whitelists']
+            self.layouts, self.whitelists, self.tables = r['layouts'], r['whitelists'], r['tables']
         if not hasattr(self, 'protocols'):
             self.protocols = parse_protocols()
 
@@ -430,11 +655,14 @@ class Prop(fw.PropBase):
                 s[pre:pre + t] = ['T'] * t
             recs.append([''.join(s), None])
         # whitelisted barcode at the barcode positions
+        self._placed = None
         if wl and prof['bc'] and r.random() < 0.85:
             bc = r.choice(sorted(wl))
+            self._placed = bc
             if r.random() < 0.3:
                 j = r.randrange(len(bc))
                 bc = bc[:j] + r.choice('ACGTN') + bc[j + 1:]
+                self._placed = None
             off = 0
             for m, a, k in prof['bc']:
                 if m < len(recs):
@@ -449,6 +677,71 @@ class Prop(fw.PropBase):
             if unequal and L:
                 rec[1] = rec[1][:r.randint(0, L)] if r.random() < 0.5 else rec[1] + self.rand_qual(r.randint(1, 5))
         return recs
+
+    def enrich_composite(self, d, prof, recs):
+        """steer composite inputs into their branches: bleed-through barcode (TCHIC), homopolymers and
+        trailing G/A in read 2, inserts made of T only, barcodes both arms accept"""
+        r = self.rng
+        name = d['name']
+        if len(recs) != 2:
+            return recs
+        (s1, q1), (s2, q2) = recs
+        comp = {'A': 'T', 'C': 'G', 'G': 'C', 'T': 'A', 'N': 'N'}
+        rc = lambda x: ''.join(comp.get(c, c) for c in reversed(x))
+        pre = prof['insert'][0]
+        if name == 'TCHIC' and self._placed and len(s1) > pre + 20 and r.random() < 0.5:
+            cs2 = {v: k for k, v in self.whitelists.get('celseq2', {}).items()}
+            idx = self.whitelists['maya_384NLA'].get(self._placed)
+            if idx in cs2:
+                eb = cs2[idx] + 'TTTTT'
+                if r.random() < 0.6:
+                    at = r.choice([pre, pre + 1, pre + 3, pre + 6, pre + 9, r.randint(pre, max(pre, len(s1) - len(eb)))])
+                    s1 = (s1[:at] + eb + s1[at + len(eb):])[:max(len(s1), at + len(eb))]
+                    q1 = q1 + self.rand_qual(len(s1) - len(q1))
+                else:
+                    ins = rc(self.rand_seq(r.choice([0, 2, 6, 9]), 0) + eb + self.rand_seq(r.randint(0, 8), 0))
+                    at = r.randint(0, max(0, len(s2) - len(ins)))
+                    s2 = (s2[:at] + ins + s2[at + len(ins):])[:max(len(s2), at + len(ins))]
+                    q2 = q2 + self.rand_qual(len(s2) - len(q2))
+                x = r.random()
+                if x < 0.3 and len(s2) > 30:
+                    at = r.randint(0, len(s2) - 10)
+                    s2 = s2[:at] + r.choice(['A', 'G']) * 10 + s2[at + 10:]
+                elif x < 0.6:
+                    k = r.randint(1, 8)
+                    s2 = s2[:max(0, len(s2) - k)] + ''.join(r.choice('GA') for _ in range(min(k, len(s2))))
+                elif x < 0.7:
+                    s2, q2 = s2[:r.randint(0, 4)], q2[:4]
+                    q2 = q2[:len(s2)]
+        if prof.get('trimT') or (prof.get('seq_from') or {}).get('trimT'):
+            ins = (prof.get('seq_from') or prof)['insert'][0]
+            if len(s1) >= ins and r.random() < 0.25:          # insert of T only / starting with T
+                k = r.choice([0, 1, 1, 2, 3, 12])
+                tail = r.choice(['', '', 'A', 'ACGT'])
+                s1 = s1[:ins] + 'T' * k + tail
+                q1 = (q1 + self.rand_qual(len(s1)))[:len(s1)]
+        return [[s1, q1], [s2, q2]]
+
+    def both_arm_barcodes(self, name):
+        """barcodes that BOTH arms of a dual strategy accept (whitelists within one mismatch of each other)"""
+        if not hasattr(self, '_both'):
+            self._both = {}
+        if name in self._both:
+            return self._both[name]
+        out = []
+        hd = lambda a, b: sum(1 for x, y in zip(a, b) if x != y)
+        if name == 'DamAndT':            # DamID2 barcode at 3:13, CEL-Seq2 barcode at 6:14 of read 1
+            for dbc in sorted(self.whitelists.get('DamID2', {})):
+                for c in sorted(self.whitelists.get('celseq2', {})):
+                    if hd(dbc[3:10], c[0:7]) <= 1:
+                        out.append(('xxx' + dbc[:3] + c, None))        # read-1 prefix (UMI xxx) carrying both
+        elif name == 'DamID2andT_3u4b3u4b':
+            for a in sorted(self.whitelists.get('DamID2_scattered_8bp', {})):
+                for b in sorted(self.whitelists.get('CS2_scattered_8bp', {})):
+                    if hd(a, b) <= 1:
+                        out.append(('xxx' + b[:4] + 'xxx' + b[4:], None))
+        self._both[name] = out
+        return out
 
     def make_cases(self):
         self.ensure_layouts()
@@ -476,6 +769,14 @@ class Prop(fw.PropBase):
                     n = 1 if x < 0.8 else (2 if x < 0.95 else r.choice([0, 3]))
                 recs = self.make_pair(prof, n, short=(j % 4 == 0), hiq=(r.random() < 0.04), unequal=(r.random() < 0.03),
                                       motif=('AGACTCTTT' if d['name'] == 'CHICTV' else None))
+                if d['kind'] == 3:
+                    recs = self.enrich_composite(d, prof, recs)
+                    both = self.both_arm_barcodes(d['name'])
+                    if both and len(recs) == 2 and r.random() < 0.15:
+                        pfx = r.choice(both)[0]
+                        pfx = ''.join(r.choice('ACGT') if ch == 'x' else ch for ch in pfx)
+                        if len(recs[0][0]) >= len(pfx):
+                            recs[0][0] = pfx + recs[0][0][len(pfx):]
                 cases.append({'s': d['name'], 'sid': sid, 'recs': recs, 'probe': None, 'why': 'random'})
             # exhaustive over the read lengths around the tag prefix (where the slice semantics bite)
             if d['kind'] in (1, 2, 4):
@@ -546,11 +847,26 @@ class Prop(fw.PropBase):
             cands.append(''.join(''.join(pyslice(rec[0], s) for s in sls) for rec, sls in zip(recs, d['bc_slices'])))
         return sorted(set(cands))
 
+    def comp_arms(self, d):
+        c = d.get('comp') or {}
+        if c.get('type') == 'tchic':
+            return [c['self']]
+        if c.get('type') == 'chictv':
+            return [c['arm']]
+        if c.get('type') == 'dual':
+            return [c['damid'], c['tx']]
+        return []
+
     def comp_candidates(self, d, recs):
         out = []
         for c in self.gen_profile(d):
             out.append((c['alias'], cat(recs, c['bc'], 0)))
-        return out
+            if c.get('seq_from'):
+                out.append((c['seq_from']['alias'], cat(recs, c['seq_from']['bc'], 0)))
+        for a in self.comp_arms(d):           # what the live arm objects would ask
+            for raw in self.raw_candidates(dict(a, name='?'), recs):
+                out.append((a.get('alias'), raw))
+        return sorted(set(out), key=str)
 
     def correspondence(self):
         self.ensure_layouts()
@@ -588,6 +904,19 @@ class Prop(fw.PropBase):
         for c, r in zip(cases, impl):
             e = by.setdefault(c['s'], {'accept': 0, 'reject': 0, 'raise': 0, 'other': 0})
             e[r['st'] if r['st'] in e else 'other'] += 1
+        branches = {}
+        for c, r in zip(cases, impl):
+            if self.layouts[c['sid']]['kind'] == 3 and r['st'] == 'accept' and r.get('recs') and len(r['recs']) == 2 and len(c['recs']) == 2:
+                t = r['recs'][0]['tags']
+                s1, s2 = c['recs'][0][0], c['recs'][1][0]
+                o1, o2 = r['recs'][0]['seq'], r['recs'][1]['seq']
+                b = 'dt=%s rx=%d RR=%d tu=%d bc%d r1%s r2%s' % (
+                    t.get('dt'), 'rx' in t, 'RR' in t, 'tu' in t, len(t.get('bc', '')),
+                    ':whole-insert' if s1.endswith(o1) and o1 else (':empty' if not o1 else ':cut'),
+                    ':whole' if s2.endswith(o2) and o2 else (':empty' if not o2 else ':cut'))
+                e = branches.setdefault(c['s'], {})
+                e[b] = e.get(b, 0) + 1
+        self.cov['composite_branches'] = branches
         nontrivial = set()
         for c, r in zip(cases, impl):
             if r['st'] == 'accept':
@@ -614,7 +943,7 @@ class Prop(fw.PropBase):
             'precondition_hit_rate': round(sum(1 for r in impl if r['st'] == 'accept') / max(1, len(impl)), 4),
             'exhaustive': False,
             'exhaustive_scopes': 'read-length pairs (len R1 in 0..prefix+4) x (len R2 in a fixed set; all of 0..prefix+3 in the thorough tier) per single-protocol strategy',
-            'no_coq_model': sorted(d['name'] for d in self.layouts if d['kind'] in (0, 3)),
+            'no_coq_model': sorted(d['name'] for d in self.layouts if d['kind'] == 9),
         })
         samples, seen = [], set()
         for c, r in zip(cases, impl):
@@ -652,7 +981,9 @@ class Prop(fw.PropBase):
         if P is None:
             return 'strategy %s is registered but has no entry in the pinned protocol table' % name if r['st'] == 'accept' else None
         if P['kind'] == 3:
-            return check_composite(name, self.protocols, c['recs'], r, self.lk)
+            cs2inv = {v: k for k, v in self.whitelists.get('celseq2', {}).items()}
+            return check_composite(name, self.protocols, c['recs'], r, self.lk) or \
+                check_comp_exact(name, self.protocols, c['recs'], r, self.lk, cs2inv)
         if P['kind'] == 0:
             return check_bulk(c['recs'], r)
         return check_single(P, name, c['recs'], r, self.lk, d.get('alias'))
@@ -688,6 +1019,33 @@ class Prop(fw.PropBase):
             if not any(x['input'] == cases[i]['recs'] and x['strategy'] == cases[i]['s'] for x in dis):
                 dis.append({'strategy': cases[i]['s'], 'input': cases[i]['recs'], 'impl': impl[i],
                             'statement': self.statement(cases[i], impl[i]) or 'specb (mode 2) rejects the implementation output'})
+        # composite and bulk strategies: Coq model (mode 6) against the real classes
+        cidx = [i for i, c in enumerate(cases) if self.layouts[c['sid']]['kind'] == 0 or
+                (self.layouts[c['sid']]['kind'] == 3 and self.layouts[c['sid']].get('comp'))]
+        cs2 = {v: k for k, v in self.whitelists.get('celseq2', {}).items()}
+        cinp = []
+        for i in cidx:
+            c = cases[i]
+            d = self.layouts[c['sid']]
+            arms = self.comp_arms(d)
+            tabs = []
+            for a in arms:
+                tabs.append([[raw, self.lk(alias, raw) or []] for alias, raw in c['keys'] if alias == a.get('alias')])
+            while len(tabs) < 2:
+                tabs.append([])
+            bis = sorted(set(e[1][0] for e in tabs[0] if e[1]))
+            cinp.append([c['sid'], tabs[0], tabs[1], [[b, cs2[b]] for b in bis if b in cs2], c['recs']])
+        cout = fw.run_model('C02', 6, cinp) if cinp else []
+        n_comp_acc = 0
+        for i, mi, mo in zip(cidx, cinp, cout):
+            exp = fw.to_val(canon_comp(impl[i], self.layouts[cases[i]['sid']]['kind']))
+            if impl[i]['st'] == 'accept':
+                n_comp_acc += 1
+            if mo != exp:
+                dis.append({'strategy': cases[i]['s'], 'input': cases[i]['recs'], 'impl': impl[i], 'model': mo,
+                            'statement': self.statement(cases[i], impl[i]) or 'composite model and implementation differ'})
+        self.cov['composite_model_vs_impl'] = {'compared': len(cidx), 'accepted': n_comp_acc}
+        cpairs = [(mi, mo) for mi, mo in zip(cinp, cout) if sum(len(x[0]) for x in mi[4]) < 120]
         wf = fw.run_model('C02', 1, [[sid] for sid in range(len(self.layouts))])
         self.cov['specb_on_impl_accepts'] = {'checked': len(sidx), 'failed': len(bad)}
         self.cov['wf_registered'] = {d['name']: bool(w) for d, w in zip(self.layouts, wf) if d['kind'] in (1, 2)}
@@ -727,14 +1085,18 @@ class Prop(fw.PropBase):
                             'impl': rr, 'model': mo, 'statement': 'base-class model differs'})
         self.cov['init'] = {'constructor_cases': len(inits), 'constructor_raises': n_ctor_raise, 'demultiplex_runs': len(m3in),
                             'accepted': sum(1 for _, _, rr in m3ref if rr['st'] == 'accept')}
-        self.cov['traces_validated_against_impl'] = len(idx) + len(inits) + len(m3in)
+        self.cov['traces_validated_against_impl'] = len(idx) + len(cidx) + len(inits) + len(m3in)
         # vm_compute cross-check of the extracted binary
         small = [k for k, (mi, mo) in enumerate(pairs) if sum(len(x[0]) for x in mi[2]) < 120]
         pick = sorted(self.rng.sample(small, min(100, len(small))))
         ok, nm, log = fw.vm_crosscheck('C02', 0, [pairs[k] for k in pick])
-        self.cov['vm_compute_crosscheck'] = {'cases': len(pick), 'mismatches': nm}
         if not ok:
             raise fw.Broken('extraction', 'vm_compute and extracted model disagree: ' + log[-800:])
+        cpick = sorted(self.rng.sample(range(len(cpairs)), min(60, len(cpairs))))
+        ok2, nm2, log2 = fw.vm_crosscheck('C02', 6, [cpairs[k] for k in cpick]) if cpick else (True, 0, '')
+        self.cov['vm_compute_crosscheck'] = {'cases': len(pick) + len(cpick), 'mismatches': nm + nm2}
+        if not ok2:
+            raise fw.Broken('extraction', 'vm_compute and extracted composite model disagree: ' + log2[-800:])
         return dis
 
     # ------------------------------------------------------------------ search (needs no model)
